@@ -379,6 +379,45 @@ func verifC17GenSeeds(t *rapid.T) []verifC17Op {
 		_ = json.Unmarshal(b, &cp)
 		ops = append(ops, verifC17Op{Kind: "seed", Peer: peer, Seed: &cp})
 	}
+	// Local data that hangs off a node NAME only (coordinates, sessions, session checks, the KV locks and prepared
+	// queries a session owns): the imported catalogs reuse the same node names, and removing an imported node must
+	// not touch any of it. Often make sure that the colliding local node exists at all.
+	loc := x[""]
+	if rapid.IntRange(0, 9).Draw(t, "twin") < 7 {
+		node := rapid.SampledFrom(verifC17NodeNms).Draw(t, "twin-node")
+		if _, ok := loc.Nodes[node]; !ok {
+			nd := loc.ensureNode(t, node)
+			nd.DC = "dc1"
+			b, _ := json.Marshal(&verifC17Seed{Node: *nd, NodeChk: true})
+			var cp verifC17Seed
+			_ = json.Unmarshal(b, &cp)
+			ops = append(ops, verifC17Op{Kind: "seed", Seed: &cp})
+		}
+	}
+	nsess := 0
+	for _, node := range verifC17Keys(loc.Nodes) {
+		if rapid.IntRange(0, 9).Draw(t, "coord") < 6 {
+			ops = append(ops, verifC17Op{Kind: "coord", Node: node})
+		}
+		for j, k := 0, rapid.IntRange(0, 2).Draw(t, "nsessions"); j < k; j++ {
+			nsess++
+			sid := fmt.Sprintf("5e551000-0000-4000-8000-00000000000%d", nsess)
+			op := verifC17Op{Kind: "session", Node: node, Session: sid, Behavior: rapid.SampledFrom([]string{"release", "delete"}).Draw(t, "behavior")}
+			for _, c := range loc.Nodes[node].Checks {
+				// a session may only be bound to a check that is not critical
+				if c.Status != "critical" && rapid.Bool().Draw(t, "bind-check") {
+					op.Checks = append(op.Checks, c.ID)
+				}
+			}
+			ops = append(ops, op)
+			if rapid.IntRange(0, 9).Draw(t, "lock") < 8 {
+				ops = append(ops, verifC17Op{Kind: "kvlock", Key: fmt.Sprintf("locks/%s/%d", node, j), Session: sid})
+			}
+			if rapid.IntRange(0, 9).Draw(t, "pq") < 4 {
+				ops = append(ops, verifC17Op{Kind: "pq", Node: node, Session: sid, Key: fmt.Sprintf("9e000000-0000-4000-8000-00000000000%d", nsess)})
+			}
+		}
+	}
 	return ops
 }
 
@@ -660,6 +699,19 @@ func TestVerifC17Replay(t *testing.T) {
 			c := rec.NewCase()
 			c.Label("replay")
 			defer c.GuardPanic(t, "C17/panic")
+			if strings.HasPrefix(probe.Kind, "s-") { // the subscription-manager family
+				var ops []verifC17SOp
+				for _, raw := range rp.Ops {
+					var op verifC17SOp
+					if err := json.Unmarshal(raw, &op); err != nil {
+						t.Fatalf("%s: %v", path, err)
+					}
+					ops = append(ops, op)
+				}
+				verifC17SReplay(t, c, ops)
+				c.Done()
+				return
+			}
 			st := verifC17NewState(t, c)
 			for _, raw := range rp.Ops {
 				var op verifC17Op
